@@ -250,7 +250,13 @@ func TestVerifC10Workers(t *testing.T) {
 		orders := map[string]bool{}
 		ex := &vrt.Explorer{Bound: -1, MaxExec: 3000, OnExec: func(x *vrt.Exec, choices []int) bool {
 			r.Eval()
-			if e := x.Err(); e != "" {
+			if e := x.Err(); strings.Contains(e, "replay divergence") {
+				// a schedule prefix the explorer could not reproduce: nondeterminism it does not own,
+				// which says nothing about the property (counted; the run is not exhaustive)
+				r.Count("schedules_not_reproducible(replay divergence)", 1)
+				r.NotExhaustive("a schedule prefix could not be reproduced: " + e)
+				return true
+			} else if e != "" {
 				r.Violate("sched/"+sc.name, "execution did not complete: "+e, map[string]interface{}{"scenario": si, "choices": choices})
 				return true
 			}
